@@ -438,6 +438,81 @@ def runInDomB (ls : List (List E)) : List (Op E M V) → Bool
     | none => true
     | some (ls', _) => runInDomB ls' ops
 
+/-- The **stated** domain of C03 for one operation (what the driver uses to decide between a spec
+    answer and `any`): positions of `split_at` / `insert_at` in `0..=len`, of `remove_at` in `0..len`,
+    `split_by` predicates prefix-monotone. The theorems hold on the larger domain `opInDomB`. -/
+def opStatedB (ls : List (List E)) : Op E M V → Bool
+  | .splitBy i g => match ls[i]? with
+    | some l => prefixMonoB g l
+    | none => true
+  | .splitAt i k | .insertAt i k _ _ => match ls[i]? with
+    | some l => k ≤ l.length
+    | none => true
+  | .removeAt i k => match ls[i]? with
+    | some l => k < l.length
+    | none => true
+  | _ => true
+
+def runStatedB (ls : List (List E)) : List (Op E M V) → Bool
+  | [] => true
+  | op :: ops =>
+    opStatedB ls op &&
+    match stepS (G := G) I ls op with
+    | none => true
+    | some (ls', _) => runStatedB ls' ops
+
+/-! ### C16: how the in-order priority sequences evolve -/
+
+/-- the first size an operation reports (the left part of a split) -/
+def Obs.firstNat {E G : Type} : Obs E G → Nat
+  | .nats (a :: _) => a
+  | _ => 0
+
+/-- One operation on the in-order **priority** lists of the live treaps. It is a function of the
+    operation and of the sizes the operation reports (only `split_by` needs the report: where it
+    cuts depends on the elements) — never of tree shapes. -/
+def stepP (ps : List (List Nat)) (op : Op E M V) (o : Obs E G) : Option (List (List Nat)) :=
+  match op with
+  | .new => some (ps ++ [[]])
+  | .item _ p => some (ps ++ [[p]])
+  | .merge i j =>
+    if i = j then none else
+    match ps[i]?, ps[j]? with
+    | some a, some b => some ((ps.set i (a ++ b)).eraseIdx j)
+    | _, _ => none
+  | .splitAt i k =>
+    match ps[i]? with
+    | some l => some (ps.set i (l.take k) ++ [l.drop k])
+    | none => none
+  | .splitBy i _ =>
+    match ps[i]? with
+    | some l => some (ps.set i (l.take o.firstNat) ++ [l.drop o.firstNat])
+    | none => none
+  | .insertAt i k _ p =>
+    match ps[i]? with
+    | some l => some (ps.set i (l.take k ++ p :: l.drop k))
+    | none => none
+  | .removeAt i k =>
+    match ps[i]? with
+    | some l => some (ps.set i (l.eraseIdx k))
+    | none => none
+  | .first i | .last i | .collect i | .size i | .agg i | .tag i _ =>
+    match ps[i]? with
+    | some _ => some ps
+    | none => none
+  | .drop i =>
+    match ps[i]? with
+    | some _ => some (ps.eraseIdx i)
+    | none => none
+
+def runP (ps : List (List Nat)) : List (Op E M V) → List (Obs E G) → Option (List (List Nat))
+  | [], _ => some ps
+  | _ :: _, [] => none
+  | op :: ops, o :: os =>
+    match stepP ps op o with
+    | none => none
+    | some ps' => runP ps' ops os
+
 /-! ### Laws of a lawful item -/
 
 /-- The laws the theorems of C03 assume of an item. Nothing is commutative: neither `mul`
